@@ -71,8 +71,9 @@ def distinct_step_scenarios(model, dom):
     return out
 
 
-def eval_step(model, sc, dom, extra0="invariant", sde=None, bm=None, log=None):
-    """Canonical form (y1, extra1, bm-call log) of one step from (t0, y0) to t1 = t0 + h."""
+def eval_step(model, sc, dom, extra0="invariant", sde=None, bm=None, log=None, warm=False):
+    """Canonical form (y1, extra1, bm-call log) of one step from (t0, y0) to t1 = t0 + h.  With `warm`, the same
+    abstract solver object first takes another step from different inputs (hidden-state probe)."""
     t0, h, t1, y0 = solverkit.symbols()
     log = log if log is not None else solverkit.BMLog()
     sde = sde or solverkit.make_sde()
@@ -89,6 +90,13 @@ def eval_step(model, sc, dom, extra0="invariant", sde=None, bm=None, log=None):
         except SimRaise:
             ex = ()
         extra0 = tuple(ex)
+    if warm:
+        ta, ha, ya = nf.sym("t_first", True), nf.sym("h_first", True), nf.sym("y_first")
+        try:
+            exa = tuple(it.call_function(model.lookup_method(sc.cls, "init_extra_solver_state"), [so, ta, ya], {}))
+        except SimRaise:
+            exa = ()
+        it.call_function(sc.step_fi, [so, ta, ta + ha, ya, exa], {})
     y1, extra1 = it.call_function(sc.step_fi, [so, t0, t1, y0, extra0], {})
     return y1, extra1, log, (t0, h, t1, y0)
 
